@@ -19,7 +19,7 @@ from sim import shims, trace
 ID = "C06"
 ENGINE = "threadsim"
 LEVEL = "exploration"
-TIERS = {"quick": {"runs": 6000, "timeout": 1200}, "thorough": {"runs": 200000, "timeout": 7200,
+TIERS = {"quick": {"runs": 40000, "timeout": 1200}, "thorough": {"runs": 1200000, "timeout": 7200,
                                                                 "lane_timeout": 1800}}
 EST_STEPS = [60, 200, 600]
 P_OPCODE = 0.0
